@@ -140,7 +140,7 @@ func clientFacts() string {
 
 	// --- GetEntries
 	rel2 := "client/getentries.go"
-	fd := mustFunc(rel2, "LogClient.GetEntries")
+	fd := canonFunc(rel2, "LogClient.GetEntries", flatKeep...)
 	ifs := findStmts(fd, func(s ast.Stmt) bool {
 		is, ok := s.(*ast.IfStmt)
 		return ok && has(src(is.Cond), `^x509\.IsFatal\(\w+\)$`)
